@@ -45,6 +45,11 @@ def inputs(seed, quick):
         elif how == "lost":
             del pk[len(pk) // 2]
         out.append((f"dirty tls {R.VNAME[ver]} {suite:04x} {how}", pcapng_bytes(pk), "" if how == "nokeys" else "\n".join(keylog) + "\n"))
+    # packets stored as Simple Packet Blocks carry no timestamp: whatever a reader does with them (TLExport skips them), it must do the same every time
+    cap, keylog, conns, flows = build_tls_capture(dict(conns=[dict(ver=R.TLS13, suite=0x1301, seed=seed + 9, shape={}, app=[["c", 40], ["s", 900], ["c", 3], ["s", 50]])]))
+    n = len(cap.pkts)
+    for name, idx in (("spb tail", {n - 1, n - 2}), ("spb mid", {n // 2}), ("spb all data", set(range(4, n)))):
+        out.append((f"tls13 with Simple Packet Blocks: {name}", pcapng_bytes(cap.pkts, spb=idx), "\n".join(keylog) + "\n"))
     from harness.quicrun import build_conn as qbuild
     from wire.capture import Capture, udp_capture
     from wire.l2l4 import mk_flow
